@@ -800,8 +800,17 @@ def _hs_conc_scenario(seed):
             w = HSWorld(_hs_plan(seed, False), all_changes=seed % 4 != 0)
             w.op({'op': 'start', 's': rnd.choice(HS_STATES[:3]), 'c': rnd.choice(['K', 'default']),
                   'fast': rnd.random() < 0.7})
-            for _ in range(nprefix):
-                w.op(_hs_rand_op(rnd, 0.75))
+            if seed % 2 == 0:
+                # directed: the run is active and a RESTART is pending when the preempted poll ends it
+                # (state_transition(None) takes its start-case branch while the request arrives)
+                w.op({'op': 'poll'})
+                if w.mod._state_machine.statefunc is None:       # the first run ended at once: start another
+                    w.op({'op': 'start', 's': rnd.choice(HS_STATES[:3]), 'c': 'default', 'fast': True})
+                    w.op({'op': 'poll'})
+                w.op({'op': 'start', 's': rnd.choice(HS_STATES[:3]), 'c': 'default', 'fast': rnd.random() < 0.7})
+            else:
+                for _ in range(nprefix):
+                    w.op(_hs_rand_op(rnd, 0.75))
             op2 = {'op': 'start', 's': rnd.choice(HS_STATES[:3]), 'c': 'default', 'fast': True} if kind == 'start' \
                 else {'op': 'stop', 'st': HS_STOPPED[1]} if seed % 2 else {'op': 'stopcmd'}
             w.mod._state_machine._lock = LockProxy(w.mod._state_machine._lock)
